@@ -21,5 +21,7 @@ func removeWhitespace(data string) (string, bool, error) {
 		return r
 	}, data)
 
-	return transformedData, changed, nil
+	// strings.Map rewrites invalid UTF-8 bytes to U+FFFD even when no white space is
+	// dropped, so the output can differ from the input without changed being set above.
+	return transformedData, changed || transformedData != data, nil
 }
